@@ -310,7 +310,6 @@ func faultFieldHasDefault(s *amSchema, root *amType, path []string) bool {
 	return false
 }
 
-
 // leafContainer keeps what matters for validation reach: whether the leaf sits in a collection.
 func leafContainer(chain string) string {
 	switch {
@@ -323,7 +322,6 @@ func leafContainer(chain string) string {
 	}
 	return "field"
 }
-
 
 // faultPathString renders docgen path steps in the notation tagAtPath understands (".a[0].k").
 func faultPathString(path []string) string {
